@@ -5,7 +5,7 @@ CONSTANTS
   Fds = {1, 2}
   MaxConn = 2
   Rogue = {2}
-  Programs = {2, 6, 7, 8}
+  Programs = {2, 6, 7, 8, 10}
   SndCap = 150
   EventsCap = 4
   LimitN = 5
@@ -14,6 +14,6 @@ CONSTANTS
   AllowFds = FALSE
   AllowFlush = FALSE
   AtomicPoll = TRUE
-INVARIANTS PollOK CapacityOK TokensOK InterestsOK NoStall QuietNotReady ReleasableReady Refused503 KillWins KillReady Witnesses
+INVARIANTS NoContinueForRefused PollOK CapacityOK TokensOK InterestsOK NoStall QuietNotReady ReleasableReady Refused503 KillWins KillReady Witnesses
 PROPERTY AbsRefines
 CHECK_DEADLOCK FALSE
